@@ -51,6 +51,11 @@ def main(argv: List[str]) -> int:
             return False, {"key": f"{label}:post", "what": f"{label.split('::')[-1]} no longer computes '{contract.note}'", "model": {k: v for k, v in m.items() if not k.startswith('hasattr')}}
 
         verify(run, stats, world, interp, fi, contract, label, on_fail, lambda msg, label=label: run.notes.append(f"{label}: outside the verified subset ({msg}); the exhaustive per-attribute table and the toggle / constructor sweeps stand in (bounded in the surrounding value)"))
+    from contracts import genhelpers as gh
+    from lib.helpers_verify import verify_helper_items
+
+    w_, i_, items_ = gh.python_special_items()
+    verify_helper_items(run, stats, w_, i_, items_)
     # ---- evaluated: every attribute, both class orders (the rule must not depend on which class a converter saw first)
     decls = all_class_decls(mm)
     res = check_classes(live, mm, decls)
